@@ -192,7 +192,6 @@ impl core::fmt::Write for Sink {
     }
 }
 
-const HEADER: &[u8] = b"MockDisplay[\n";
 
 macro_rules! c20_pattern {
     ($name:ident, $C:ty, [$($row:literal),*], $rows_total:expr, $w:expr) => {
@@ -228,30 +227,30 @@ c20_pattern!(c20_q_s_pattern_gray4, Gray4, ["0123456", "789ABCD", "EF     "], 3,
 c20_pattern!(c20_q_s_pattern_gray2, Gray2, ["   ", "0 3", "   "], 3, 3);
 c20_pattern!(c20_q_s_pattern_empty, BinaryColor, [], 0, 0);
 
-/// Debug output of `d`, whose last non-empty row is row `rows - 1` (rows == 0: empty display): header,
-/// one line of 8 cell characters per row up to the last non-empty row, the skipped-rows note, "]"
+/// Debug output of `d`, whose last non-empty row is row `rows - 1` (rows == 0: empty display). What the
+/// round trip with `from_pattern` needs, and nothing about the decoration around it: after the first line
+/// (whatever the header says) come `rows` lines of exactly 8 cell characters, each the character
+/// `color_to_char` designates (' ' for an untouched cell), and the text that follows them does not start
+/// like a further pattern row.
 fn debug_claims(d: &MockDisplay<BinaryColor>, rows: usize) {
     let mut s = Sink { buf: [0; 192], n: 0, non_ascii: false };
     write!(&mut s, "{:?}", d).unwrap();
-    let mut ok = true;
+    // end of the header line
+    let mut start = 0usize;
     let mut i = 0;
-    while i < HEADER.len() { if s.buf[i] != HEADER[i] { ok = false; } i += 1; }
-    check!(ok, "C20.debug_header");
+    while i < 40 { if start == 0 && s.buf[i] == b'\n' { start = i + 1; } i += 1; }
+    check!(start > 0 && start < s.n, "C20.debug_header_line");
     let q = cellq();
     if (q.y as usize) < rows {
-        let ch = s.buf[HEADER.len() + q.y as usize * 9 + q.x as usize];
+        let ch = s.buf[start + q.y as usize * 9 + q.x as usize];
         let want = match d.get_pixel(q) { None => b' ', Some(BinaryColor::Off) => b'.', Some(BinaryColor::On) => b'#' };
         note!("q", q); note!("char", ch as char); note!("want", want as char);
         check!(ch == want, "C20.debug_cell_char");
-        check!(s.buf[HEADER.len() + q.y as usize * 9 + 8] == b'\n', "C20.debug_row_break");
+        check!(s.buf[start + q.y as usize * 9 + 8] == b'\n', "C20.debug_row_break");
     }
-    let rest = HEADER.len() + rows * 9;
-    if rows < 8 {
-        check!(s.buf[rest] == b'(' && s.buf[rest + 1] == b'0' + (8 - rows) as u8 && s.buf[rest + 2] == b' ', "C20.debug_rows_skipped");
-        check!(s.n > 2 && s.buf[s.n - 2] == b']' && s.buf[s.n - 1] == b'\n', "C20.debug_footer");
-    } else {
-        check!(s.n == rest + 2 && s.buf[rest] == b']' && s.buf[rest + 1] == b'\n', "C20.debug_footer");
-    }
+    let after = s.buf[start + rows * 9];
+    note!("after_rows", after as char);
+    check!(start + rows * 9 < s.n && after != b' ' && after != b'.' && after != b'#', "C20.debug_no_further_row");
     check!(!s.non_ascii, "C20.debug_ascii");
 }
 
